@@ -199,6 +199,9 @@ func genHistory(r *gen.R, tier string) input {
 	// transactions
 	locking := r.Chance(1, 3)
 	lockedNow := false
+	// a fifth convert the manager to watching-only somewhere (afterwards it
+	// refuses NewAccount, Lock, Unlock and issues from public keys)
+	converting := r.Chance(1, 5)
 	gs := [2]*gscope{}
 	for i := range gs {
 		// every xpub is imported at most once per history and scope (the same key
@@ -280,7 +283,10 @@ func genHistory(r *gen.R, tier string) input {
 			}
 			g = gs[sc]
 			var o op
-			kind := r.Pick(24, 6, 8, 9, 8, 9, 1, 3, 3, 4, 3, 18, 0, 0, 0, 3)
+			kind := r.Pick(24, 6, 8, 9, 8, 9, 1, 3, 3, 4, 3, 18, 0, 0, 0, 3, 1)
+			if converting && r.Chance(1, 12) {
+				kind = 16
+			}
 			if locking {
 				switch {
 				case lockedNow && r.Chance(1, 5):
@@ -450,6 +456,8 @@ func genHistory(r *gen.R, tier string) input {
 			case 14:
 				o = op{K: "unlock"}
 				lockedNow = false
+			case 16:
+				o = op{K: "convert"}
 			case 15:
 				a := pickAcct()
 				if pendAcct[[2]uint32{uint32(sc), a}] && !aborted {
@@ -498,8 +506,16 @@ func genWalletHistory(r *gen.R) input {
 		}
 		return 0
 	}
+	converted := false
 	for i := 0; i < n; i++ {
-		switch r.Pick(4, 2, 2, 2, 3, 2) {
+		pick := r.Pick(4, 2, 2, 2, 3, 2, 1)
+		if converted && (pick <= 1 || pick == 6) {
+			pick = 2 + r.Intn(2) // a converted wallet cannot sign: no sends
+		}
+		switch pick {
+		case 6:
+			in.Txs = append(in.Txs, txIn{Fate: "commit", Ops: []op{{K: "convert", Via: "initwatch"}}})
+			converted = true
 		case 0:
 			in.Txs = append(in.Txs, txIn{Fate: "dryrun", Ops: []op{{K: "next", Acct: 0, Int: true, N: 1, Via: "createtxdry"}}})
 		case 1:
@@ -645,6 +661,43 @@ func systematic() []input {
 				{Fate: "abort", Ops: []op{{K: "rename", Acct: 1, Name: 6}}}}},
 		)
 	}
+	// ConvertToWatchingOnly: every row is rewritten without its private parts;
+	// next indices, names, addresses must be what they were - asked of the
+	// running and of a restarted manager after the conversion and after
+	// further issuance
+	for _, scope := range []uint32{84, 44} {
+		out = append(out,
+			// different numbers of receiving and change addresses, two accounts, an imported one
+			input{Scope: scope, Txs: []txIn{
+				{Fate: "commit", Ops: []op{{K: "next", Acct: 0, N: 4}, {K: "next", Acct: 0, Int: true, N: 1}, {K: "newacct", Name: 5}}},
+				{Fate: "commit", Ops: []op{{K: "extend", Acct: 1, Int: true, N: 2}, {K: "newacctwo", Name: 6, Key: 0, Fp: 7}, {K: "next", Acct: 2, N: 2}}},
+				{Fate: "commit", Ops: []op{{K: "convert"}}},
+				{Fate: "commit", Ops: []op{{K: "next", Acct: 0, N: 1}, {K: "next", Acct: 0, Int: true, N: 1}, {K: "next", Acct: 1, N: 1}}},
+				{Fate: "commit", Ops: []op{{K: "extend", Acct: 2, Int: true, N: 1}, {K: "rename", Acct: 1, Name: 7}, {K: "convert"}}}}},
+			// imported keys and scripts before; what the converted manager refuses and accepts
+			input{Scope: scope, Txs: []txIn{
+				{Fate: "commit", Ops: []op{{K: "impkey", Key: 0, Priv: true, H: 1, Hash: 3, T: 1600000000}, {K: "impkey", Key: 1, Hash: -1},
+					{K: "impscript", Key: 0, H: 1, Hash: 4, T: 1600000000}}},
+				{Fate: "commit", Ops: []op{{K: "next", Acct: 0, N: 2}, {K: "convert"}, {K: "next", Acct: 0, Int: true, N: 3}}},
+				{Fate: "commit", Ops: []op{{K: "newacct", Name: 5}, {K: "unlock"}, {K: "lock"}}},
+				{Fate: "commit", Ops: []op{{K: "impkey", Key: 2, Priv: true, H: 1, Hash: 5, T: 1600000000}, {K: "impscript", Key: 1, H: 1, Hash: 6, T: 1600000000},
+					{K: "newacctwo", Name: 6, Key: 1, Fp: 0x11223344, Sch: []uint32{3, 4}}}},
+				{Fate: "commit", Ops: []op{{K: "next", Acct: 1, N: 2}, {K: "markused", Addr: []uint32{0, 0, 0, 0}}, {K: "last", Acct: 0, Int: true}}}}},
+			// converted while locked, after an eviction; cold caches afterwards
+			input{Scope: scope, Txs: []txIn{
+				{Fate: "commit", Ops: []op{{K: "next", Acct: 0, N: 3}, {K: "lock"}, {K: "next", Acct: 0, Int: true, N: 2}}},
+				{Fate: "commit", Ops: []op{{K: "invalidate", Acct: 0}, {K: "convert"}}},
+				{Fate: "commit", Ops: []op{{K: "props", Acct: 0}, {K: "next", Acct: 0, N: 1}}}}},
+		)
+		// the conversion rolled back: the running manager has made itself
+		// watching-only (and locked) already
+		for _, f := range ab {
+			out = append(out, input{Scope: scope, Txs: []txIn{
+				{Fate: "commit", Ops: []op{{K: "next", Acct: 0, N: 2}, {K: "next", Acct: 0, Int: true, N: 1}}},
+				{Fate: f, Ops: []op{{K: "convert"}}},
+				{Fate: "commit", Ops: []op{{K: "next", Acct: 0, N: 1}, {K: "newacct", Name: 5}, {K: "unlock"}}}}})
+		}
+	}
 	// cache eviction.  What wallet.ImportAccountDryRun does to the manager:
 	// create, read, issue, read, EVICT, roll back - no phantom account; the same
 	// without the eviction leaves one (known finding); the number is reused
@@ -711,6 +764,17 @@ func systematic() []input {
 			wdry(7, 0, 2, 0, 1),
 			{Fate: "dryrun", Ops: []op{{K: "next", Acct: 0, Int: true, N: 1, Via: "createtxdry"}}},
 			{Fate: "commit", Ops: []op{{K: "next", Acct: 1, Int: true, N: 1, Via: "newchange"}}}}},
+		// the wallet converts itself (InitAccounts with watchOnly) and goes on issuing
+		input{Scope: 84, Wallet: true, Txs: []txIn{
+			{Fate: "commit", Ops: []op{{K: "next", Acct: 0, N: 1, Via: "newaddress"}}},
+			{Fate: "commit", Ops: []op{{K: "next", Acct: 0, N: 1, Via: "newaddress"}}},
+			{Fate: "commit", Ops: []op{{K: "next", Acct: 0, N: 1, Via: "newaddress"}}},
+			{Fate: "commit", Ops: []op{{K: "next", Acct: 0, Int: true, N: 1, Via: "newchange"}}},
+			{Fate: "commit", Ops: []op{{K: "convert", Via: "initwatch"}}},
+			{Fate: "commit", Ops: []op{{K: "next", Acct: 0, N: 1, Via: "newaddress"}}},
+			{Fate: "commit", Ops: []op{{K: "newacctwo", Name: 5, Key: 0, Fp: 7, Via: "importacct"}, {K: "props", Acct: 1}}},
+			{Fate: "commit", Ops: []op{{K: "next", Acct: 0, Int: true, N: 1, Via: "newchange"}}},
+			{Fate: "commit", Ops: []op{{K: "next", Acct: 1, N: 1, Via: "newaddress"}}}}},
 		input{Scope: 84, Wallet: true, Txs: []txIn{
 			{Fate: "commit", Ops: []op{{K: "next", Acct: 0, N: 1, Via: "newaddress"}}},
 			wdry(5, 2, 1, 0x11223344, 3), wdry(5, 2, 1, 0x11223344, 1),
